@@ -9,3 +9,33 @@ NOT_APPLICABLE["C12"] = ("quantifies over thread schedules: a function contract 
 NOT_APPLICABLE["C17"] = ("relates six introspectors that are thin reflective adapters over dataclasses/typing/attrs/pydantic/"
                          "sqlalchemy; a contract on them is only as strong as a hand-written model of those libraries "
                          "(DESIGN.md §6); the kind-independent downstream code is covered under C03/C08/C13")
+
+TECH = ("contract-based deductive verification: side-car contracts on the real functions, VCs generated from the AST of "
+        "/repo's working tree, discharged by z3 (cvc5 on unknowns); counter-models replayed natively")
+NOTE = ("trusted base (printed per run in the evidence): outcome class of built-ins per cell of the data universe D is probed "
+        "on CPython 3.12 and assumed uniform inside a cell; sub-loaders satisfy LD (deterministic, raise only LoadError); "
+        "container factories consume their argument completely; contracts of struct_trail helpers; mathematical integers. "
+        "Functions under contract are listed in the evidence; builtin providers not yet under contract are outside the claim.")
+
+
+def claim(pid, text, note=NOTE, ref="DESIGN.md §5"):
+    CLAIMED[pid] = {"level_text": text, "level_note": note, "technique": TECH, "design_ref": ref}
+    NOT_APPLICABLE.pop(pid, None)
+
+
+claim("C04", "closed-world `raises` clause of every loader closure under contract: on every path of the real AST, for every "
+             "datum of D and every behaviour of sub-loaders under LD, the escaping exception is a LoadError; proved for all "
+             "inputs and all sequence lengths (loops cut by inductive invariants)")
+claim("C02", "function-against-spec: accept-iff / value / documented-rejection clauses transcribed from "
+             "specific-types-behavior.rst, proved for every scalar loader and the composed iterable and dict loaders")
+claim("C05", "trail post-conditions (exact top element, old trail kept, ALL mode sound+complete+exactly-once) proved with loop "
+             "invariants over symbolic sequences for the iterable and dict loaders; leaf loaders carry the offending datum")
+claim("C06", "each debug-trail variant of a container loader is proved against one mode-independent spec (identical accept-iff / "
+             "value formulas), so agreement of the three modes follows from the contracts; error correspondence from the "
+             "first-error / agg-complete clauses")
+claim("C07", "strict-origin and accept-iff clauses: strict acceptance implies an allowed strict origin and the lax spec; proved "
+             "per loader under contract")
+claim("C20", "implicit frame clause `modifies nothing` on every unit (any store to a non-fresh object is an obligation) and "
+             "freshness of built containers")
+claim("C01", "value clauses of loaders (result equals constructor applied to the dumped form) for scalars; container loaders map "
+             "element-wise; round-trip lemmas over loader+dumper contracts are being added")
